@@ -122,6 +122,27 @@ pub trait ByteView { spec fn bv(&self) -> Seq<u8>; }
 impl ByteView for BytesMut { open spec fn bv(&self) -> Seq<u8> { self@ } }
 impl ByteView for [u8] { open spec fn bv(&self) -> Seq<u8> { self@ } }
 
+// `&buf[..k]` / `&buf[a..b]` (panic when out of range)
+impl vstd::std_specs::core::IndexSpecImpl<core::ops::RangeTo<usize>> for BytesMut {
+    open spec fn index_req(&self, r: &core::ops::RangeTo<usize>) -> bool { r.end <= self@.len() }
+}
+impl core::ops::Index<core::ops::RangeTo<usize>> for BytesMut {
+    type Output = [u8];
+    #[verifier::external_body]
+    fn index(&self, r: core::ops::RangeTo<usize>) -> (o: &[u8])
+        ensures o@ == self@.subrange(0, r.end as int)
+    { unimplemented!() }
+}
+impl vstd::std_specs::core::IndexSpecImpl<core::ops::Range<usize>> for BytesMut {
+    open spec fn index_req(&self, r: &core::ops::Range<usize>) -> bool { r.start <= r.end && r.end <= self@.len() }
+}
+impl core::ops::Index<core::ops::Range<usize>> for BytesMut {
+    type Output = [u8];
+    #[verifier::external_body]
+    fn index(&self, r: core::ops::Range<usize>) -> (o: &[u8])
+        ensures o@ == self@.subrange(r.start as int, r.end as int)
+    { unimplemented!() }
+}
 // `&buf[k..]` (slicing through Deref<Target=[u8]>; panics when k > len)
 impl vstd::std_specs::core::IndexSpecImpl<core::ops::RangeFrom<usize>> for BytesMut {
     open spec fn index_req(&self, r: &core::ops::RangeFrom<usize>) -> bool { r.start <= self@.len() }
